@@ -190,6 +190,7 @@ func RunStress(s Stress) *Trace {
 	close(stopRel)
 	relWG.Wait()
 	hs.Close()
+	tr.NotQuiet = hs.NotQuiet
 	tr.Calls = hs.DB.Calls()
 	tr.Events = hs.DB.Events()
 	tr.Subs = hs.Rec.Subs()
